@@ -728,18 +728,12 @@ func (s *Session) hotRestart(epoch uint64, event eventType) error {
 	binary.BigEndian.PutUint64(data[offset:offset+8], epoch)
 	header(data).encode(uint32(len(data)), s.communicationVersion, event)
 
-	if atomic.CompareAndSwapUint32(&s.writing, 0, 1) {
-		//fast path
-		s.writeEventData(data, nil)
-		atomic.StoreUint32(&s.writing, 0)
-		asyncNotify(s.notifyContinueWriteCh)
-	} else {
-		//slow path
-		select {
-		case s.sendCh <- sendReady{nil, data, nil}:
-		case <-s.shutdownCh:
-			return s.shutdownErr
-		}
+	// the callers hold Listener.mu / the SessionManager lock, which the event loop needs too (acknowledgements, restart
+	// events): never write on the caller's goroutine, a write that meets a full socket waits for that very event loop.
+	select {
+	case s.sendCh <- sendReady{nil, data, nil}:
+	case <-s.shutdownCh:
+		return s.shutdownErr
 	}
 
 	return nil
